@@ -123,6 +123,59 @@ class JobCopy:
                     where = rec
         return {"rc": rc, "where": where, "total": total}
 
+    def race(self, n, wait=4.0, timeout=90):
+        """Process 1 runs the job script and stops itself (SIGSTOP) at line event n; while it
+        is stopped a second process runs the same script; process 1 is then continued.
+        Returns what both did."""
+        import time
+
+        out = self.dir / "trace-race.txt"
+        if out.exists():
+            out.unlink()
+        p1 = subprocess.Popen([PY, "-W", "ignore", "-c", WRAP, str(self.script), str(n), str(int(signal.SIGSTOP)), str(out)], env=self.env, stdout=subprocess.DEVNULL, stderr=subprocess.DEVNULL, cwd=str(self.dir))
+        stopped = False
+        try:
+            # wait until process 1 has stopped itself (or ended: n beyond its last line)
+            deadline = time.time() + timeout
+            while time.time() < deadline:
+                pid, status = os.waitpid(p1.pid, os.WUNTRACED | os.WNOHANG)
+                if pid == p1.pid:
+                    if os.WIFSTOPPED(status):
+                        stopped = True
+                    else:
+                        p1.returncode = os.waitstatus_to_exitcode(status)
+                    break
+                time.sleep(0.01)
+            p2 = subprocess.Popen([PY, "-W", "ignore", str(self.script)], env=self.env, stdout=subprocess.DEVNULL, stderr=subprocess.DEVNULL, cwd=str(self.dir))
+            p2_done_while_paused = False
+            try:
+                p2.wait(wait if stopped else timeout)
+                p2_done_while_paused = True
+            except subprocess.TimeoutExpired:
+                pass
+            if stopped:
+                os.kill(p1.pid, signal.SIGCONT)
+                try:
+                    p1.wait(timeout)
+                except subprocess.TimeoutExpired:
+                    pass
+            try:
+                p2.wait(timeout)
+            except subprocess.TimeoutExpired:
+                pass
+        finally:
+            for p in (p1, locals().get("p2")):
+                if p is not None and p.poll() is None:
+                    p.kill()
+                    p.wait()
+        where = None
+        if out.exists():
+            for ln in out.read_text().splitlines():
+                rec = json.loads(ln)
+                if "total" not in rec:
+                    where = rec
+        return {"stopped": stopped, "where": where, "p2_finished_while_p1_stopped": p2_done_while_paused, "rc1": p1.returncode, "rc2": p2.returncode}
+
     def markers(self):
         return sorted(p.name for p in self.job.iterdir() if p.suffix in (".done", ".failed", ".pid"))
 
